@@ -53,7 +53,7 @@ theorem makeNode_dynK {f : PickleFile} (hw : PickleWF f) (vat : List (Nat × Str
   obtain ⟨hi, r2, ehi, g2, mhi, shi, dhi, _⟩ :=
     nodeFromInt_dyn hw e0 _ { m with ref := r1 } g1 cache hc ln.hi hhi
   let m2 : Mgr := { m with ref := r2 }
-  have hasrt : M.assert (decide (0 < ln.id)) .assertion m = (.ok (), m) := assert_ok _ _ (by simp; omega)
+  have hasrt : M.assert (decide (1 < ln.id)) .assertion m = (.ok (), m) := assert_ok _ _ (by simp; omega)
   have hnm : (M.ofOption Err.key (vat.lookup ln.lvl) : M String) { m with ref := r2 } = (.ok name, m2) := by
     rw [hvat]; rfl
   -- `bdd.var(var)`: the documented result, or the model's schedule mismatch
@@ -408,67 +408,11 @@ theorem makeNodesE_dynK {f : PickleFile} (hw : PickleWF f) (vat : List (Nat × S
       · simpa using c1
       · simpa using n1
 
-/-- `except BaseException:` of `_load_json`, reordering possibly enabled: the shelf's references
-are given back -/
-theorem releaseFailed_dyn {f : PickleFile} (hw : PickleWF f) (e0 : Nat → Nat)
-    (cache : List (Nat × Int)) (hn : (cache.map (·.1)).Nodup) :
-    ∀ (ents : List (Nat × Int)) (prev : Option Int) (m : Mgr) (l : List Nat),
-      (∀ p ∈ ents, p ∈ cache) → ShelfN f m.tbl cache →
-      DynL e0 (ents.map (·.2.natAbs) ++ prev.toList.map Int.natAbs ++ l) m →
-      ∃ last r, releaseFailed cache ents prev m = (.ok (), last, { m with ref := r }) ∧
-        DynL e0 (last.toList.map Int.natAbs ++ l) { m with ref := r } := by
-  intro ents
-  induction ents with
-  | nil =>
-    intro prev m l _ _ h
-    exact ⟨prev, m.ref, rfl, by simpa using h⟩
-  | cons p rest ih =>
-    intro prev m l hsub hc h
-    obtain ⟨k, u0⟩ := p
-    have hlk : cache.lookup k = some u0 := dmp_lookup_of_mem_nodup cache hn k u0 (hsub _ List.mem_cons_self)
-    obtain ⟨u0pos, u0mem, hk1, _, _⟩ := hc k u0 hlk
-    have hnat : ((k : Int)).natAbs = k := by simp
-    obtain ⟨u, r1, e1, g1, mu, su, _, hlu⟩ := nodeFromInt_dyn hw e0 _ m h cache hc (k : Int)
-      (Or.inr (by rw [hnat, hlk]; rfl))
-    have hu : u = u0 := by
-      have := hlu (by rw [hnat]; exact hk1)
-      rw [hnat, hlk] at this
-      have hneg : ¬ ((k : Int) < 0) := by omega
-      simp only [hneg, if_false, Option.some.injEq] at this
-      exact this.symm
-    subst hu
-    have g1' : DynL e0 (prev.toList.map Int.natAbs ++ (u.natAbs :: u.natAbs :: (rest.map (·.2.natAbs) ++ l)))
-        { m with ref := r1 } := by
-      apply g1.perm
-      simp only [List.map_cons, List.cons_append, List.append_assoc]
-      refine List.Perm.symm (List.perm_append_comm.trans ?_)
-      simp only [List.cons_append, List.append_assoc]
-      exact List.Perm.cons _ (List.Perm.cons _ (List.Perm.append_left _ List.perm_append_comm))
-    obtain ⟨r2, ed, g2⟩ : ∃ r2, dropOpt prev { m with ref := r1 } = { m with ref := r2 } ∧
-        DynL e0 (u.natAbs :: u.natAbs :: (rest.map (·.2.natAbs) ++ l)) { m with ref := r2 } := by
-      cases prev with
-      | none => exact ⟨r1, rfl, by simpa using g1'⟩
-      | some p =>
-        simp only [Option.toList, List.map_cons, List.map_nil, List.cons_append, List.nil_append] at g1'
-        obtain ⟨r2, hd, hg⟩ := dropD e0 _ { m with ref := r1 } p g1'
-        exact ⟨r2, hd, hg⟩
-    obtain ⟨r3, hd3, g3⟩ := decrefD e0 _ { m with ref := r2 } u g2
-    have g3' : DynL e0 (rest.map (·.2.natAbs) ++ (some u).toList.map Int.natAbs ++ l) { m with ref := r3 } := by
-      apply g3.perm
-      simp only [Option.toList, List.map_cons, List.map_nil, List.append_assoc, List.cons_append, List.nil_append]
-      exact List.perm_middle.symm
-    obtain ⟨last, r4, e4, g4⟩ := ih (some u) { m with ref := r3 } l
-      (fun p hp => hsub p (List.mem_cons_of_mem _ hp)) hc g3'
-    refine ⟨last, r4, ?_, g4⟩
-    rw [releaseFailed]
-    simp only [e1, ed, hd3]
-    exact e4
-
 theorem jsonTry_err_nodes (f : JsonFile) (m m1 : Mgr) (e : Err) (cache : List (Nat × Int)) (m2 : Mgr)
     (hh : jsonHeader f false m = (.ok (), m1))
     (hm : makeNodesE false (f.levelOfVar.foldl (fun acc (x : String × Nat) => (x.2, x.1) :: acc) [])
       f.nodes [] m1 = (.error e, cache, m2)) :
-    jsonTry f false m = (.error e, cache, m2) := by
+    jsonTry f false m = (.error e, cache, none, m2) := by
   unfold jsonTry
   simp only [hh, hm]
 
@@ -553,24 +497,30 @@ theorem loadJson_dyn_failK (f : JsonFile) (hf : JsonWF f) (tgt : Mgr) (ext : Nat
           have := a2 ln hln
           rw [← hid]; exact this
     obtain ⟨us, r3, er, L3, f3⟩ := rootsFromInts_dyn hwf ext added f.roots.values m2 _ L2 c2 hks
-    rw [jsonTry_ok f false hsome tgt m1 m2 { m2 with ref := r3 } added us
-      (jsonHeader_false f tgt m1 ed) emk er] at htry
+    have L3' : DynL ext (added.map (·.2.natAbs) ++ (none : Option Int).toList.map Int.natAbs ++ us.map Int.natAbs)
+        { m2 with ref := r3 } := by
+      apply L3.perm
+      simp only [Option.toList, List.map_nil, List.append_nil]
+      exact List.perm_append_comm
+    have hids := shelfN_ids n2 c2
+    obtain ⟨last0, r0, eck, L0⟩ := checkLoop_dyn ext added n2 hids added none { m2 with ref := r3 }
+      (shelfRefs added ++ us.map Int.natAbs) (fun _ h => h)
+      (fun p hp => List.mem_append_left _ (List.mem_map.mpr ⟨p, hp, rfl⟩))
+      (by simpa [shelfRefs] using L3')
+    rw [jsonTry_ok f false hsome tgt m1 m2 { m2 with ref := r3 } { m2 with ref := r0 }
+      added us last0 (jsonHeader_false f tgt m1 ed) emk er eck] at htry
     cases htry
   -- a decorated call ended in `.sched`: the handler gives the shelf's references back
   simp only [List.nil_append, List.append_nil] at emk L2 c2 n2
   rw [extAdd_nil] at qW
-  have etry : jsonTry f false tgt = (.error .sched, added, m2) :=
+  have etry : jsonTry f false tgt = (.error .sched, added, none, m2) :=
     jsonTry_err_nodes f tgt m1 .sched added m2 (jsonHeader_false f tgt m1 ed) emk
-  have L2' : DynL ext (added.map (·.2.natAbs) ++ (none : Option Int).toList.map Int.natAbs ++ []) m2 := by
-    simpa using L2
-  obtain ⟨last, r4, erl, L4⟩ := releaseFailed_dyn hwf ext added n2 added none m2 [] (fun _ h => h) c2 L2'
+  have L2' : DynL ext ((none : Option Int).toList.map Int.natAbs ++ (shelfRefs added ++ [])) m2 := by
+    simpa [shelfRefs] using L2
+  obtain ⟨last, r4, erl, L4⟩ := releaseFailed_dyn ext added n2 (shelfN_ids n2 c2) added none m2 []
+    (fun _ h => h) L2'
   obtain ⟨r5, ed5, L5⟩ : ∃ r5, dropOpt last { m2 with ref := r4 } = { m2 with ref := r5 } ∧
-      DynL ext [] { m2 with ref := r5 } := by
-    cases last with
-    | none => exact ⟨r4, rfl, by simpa using L4⟩
-    | some p =>
-      simp only [Option.toList, List.map_cons, List.map_nil, List.append_nil] at L4
-      exact dropD ext _ { m2 with ref := r4 } p L4
+      DynL ext [] { m2 with ref := r5 } := dropOptD ext last { m2 with ref := r4 } [] L4
   have hk5 : KeysOK ({ m2 with ref := r5 } : Mgr) := hk2.congr rfl
   have D5 : DynInv ext ({ m2 with ref := r5 } : Mgr) := by
     have := L5.dyn
